@@ -66,7 +66,7 @@ def function_case(draw):
     nw = draw(st.integers(1, 8))
     K = draw(st.integers(2, 4))
     T = draw(st.integers(2 * K + 1, 60))
-    return {"nw": nw, "K": K, "T": T, "seed": draw(st.integers(0, 2 ** 32 - 1)),
+    return {"nw": nw, "K": K, "T": T, "seed": draw(st.integers(0, 2 ** 32 - 1)), "min_size": draw(st.sampled_from([1, 1, 2])),
             "col_offsets": draw(st.sampled_from(["none", "small", "large"])),
             "shift_scale": draw(st.sampled_from([0.5, 10.0, 1000.0]))}
 
@@ -75,7 +75,16 @@ def _build(case, shift=None):
     from fast_ticc.containers import arguments, model_state
     rng = np.random.default_rng(case["seed"])
     nw, K, T = case["nw"], case["K"], case["T"]
-    labels = list(range(K)) * 2 + [int(v) for v in rng.integers(0, K, size=T - 2 * K)]
+    ms_ = case.get("min_size", 2)
+    if ms_ == 1:
+        # some clusters hold exactly one window (their within-cluster dispersion is 0 but they still count in B, K and T)
+        big = int(rng.integers(0, K))
+        labels = list(range(K)) + [big] * (T - K)
+        if K >= 3 and rng.integers(0, 2):
+            other = (big + 1) % K
+            labels = list(range(K)) + [big if i % 2 else other for i in range(T - K)]
+    else:
+        labels = list(range(K)) * 2 + [int(v) for v in rng.integers(0, K, size=T - 2 * K)]
     rng.shuffle(labels)
     centres = rng.normal(0, 3, size=(K, nw))
     data = centres[labels] + rng.normal(size=(T, nw))
@@ -108,6 +117,8 @@ def execute_function(case, t):
     verdict1, dist1, col1 = _judge(v1, data, labels, K, t, "function level")
     verdict2, dist2, col2 = _judge(v2, data2, labels, K, t, "function level, translated data")
     t.cls(f"col_offsets_{case['col_offsets']}")
+    if min(labels.count(k) for k in range(K)) == 1:
+        t.cls("singleton_cluster")
     if dist1 or dist2:
         t.mark_nontrivial({"CH": float(v1), "CH_translated": float(v2), "definition": col1, "verdicts": [verdict1, verdict2]})
     else:
